@@ -225,7 +225,9 @@ def main():
                                          'vals': vals, 'total': [tot.numerator, tot.denominator], 'log_bad': logs_bad})
     # random errors on larger codes: product form and log form (float tolerance)
     for cls, s in [('Toric2DCode', (4, 3)), ('Planar3DCode', (2, 3, 2)), ('XCubeCode', (2, 2, 3)), ('Color488Code', (2, 2)),
-                   ('Color488Code', (1, 1)), ('Color666ToricCode', (1, 1)), ('RhombicToricCode', (2, 2, 2)), ('RhombicPlanarCode', (2, 2, 2))]:
+                   ('Color488Code', (1, 1)), ('Color666ToricCode', (1, 1)), ('RhombicToricCode', (2, 2, 2)), ('RhombicPlanarCode', (2, 2, 2)),
+                   # hundreds of qubits: the probability underflows double precision, its logarithm does not
+                   ('Toric2DCode', (18, 18)), ('Toric3DCode', (7, 7, 7))]:
         klass = getattr(pc, cls)
         code = klass(*s)
         n = code.n
@@ -234,7 +236,7 @@ def main():
             kw = {'deformation_axis': ax} if ax else {}
             a, b, c = rng.choice([d_ for d_ in dirs if d_[0] != d_[2]])       # r_x != r_z: a relabelling of X and Z is visible
             em = PauliErrorModel(a / 8, b / 8, c / 8, deformation_name=nm, deformation_kwargs=kw)
-            p = rng.choice([1, 3, 8, 13]) / 16
+            p = rng.choice([1, 3, 8, 13]) / 16 if code.n < 300 else 0.5
             # the STATED channel (not read from the implementation): direction, rate, deformation dictionary of each qubit
             base_ = {'X': p * a / 8, 'Y': p * b / 8, 'Z': p * c / 8}
             ddl = [code.get_deformation(q_, nm, **kw) if nm else {'X': 'X', 'Y': 'Y', 'Z': 'Z'} for q_ in code.qubit_coordinates]
@@ -248,12 +250,15 @@ def main():
                 with np.errstate(all='ignore'):
                     lg = float(em.error_probability(e, code, p, log_output=True))
                 exp = Fraction(1)
+                exp_log = 0.0
                 for i in range(n):
                     x, z = int(e[i]), int(e[n + i])
-                    exp *= Fraction(float((pi, px, pz, py)[x + 2 * z][i]))
+                    f_ = float((pi, px, pz, py)[x + 2 * z][i])
+                    exp *= Fraction(f_)
+                    exp_log = -math.inf if (f_ == 0 or exp_log == -math.inf) else exp_log + math.log(f_)
                 res['logs'].append({'cls': cls, 'size': list(s), 'name': nm, 'axis': ax, 'dir': [a, b, c], 'p': p,
                                     'x': [int(i) for i in np.nonzero(e[:n])[0]], 'z': [int(i) for i in np.nonzero(e[n:])[0]],
-                                    'prob': pr, 'log': lg, 'expected': float(exp), 'expected_log': (-math.inf if exp == 0 else math.log(exp))})
+                                    'prob': pr, 'log': lg, 'expected': float(exp), 'expected_log': exp_log})
     json.dump(res, open(out, 'w'))
     print({k: len(v) for k, v in res.items()})
 
